@@ -1,8 +1,9 @@
 (* C07 — the statements exported by Properties.v, derived from the invariants. *)
 From Coq Require Import List ZArith Bool Arith Lia Permutation.
 From Verif Require Import C07.Model C07.Spec C07.Proofs_Res C07.Proofs_Ledger C07.Proofs_View
-  C07.Proofs_Alloc C07.Proofs_Allocate C07.Proofs_State C07.Proofs_Inv C07.Proofs_Preempt
-  C07.Proofs_Main.
+  C07.Proofs_Alloc C07.Proofs_Allocate C07.Proofs_Desig C07.Proofs_AllocateR C07.Proofs_State C07.Proofs_Inv
+  C07.Proofs_Preempt C07.Proofs_Main.
+From Verif Require Import Gen.Gen_scores.
 Import ListNotations.
 Open Scope Z_scope.
 
@@ -13,11 +14,11 @@ Proof. reflexivity. Qed.
 
 Lemma exec_from_good s ops :
   ugood s -> ugood (exec_from s ops) /\
-  (wgood s -> forallb op_wf ops = true -> wgood (exec_from s ops)).
+  (wgood s -> pgood s -> forallb op_wf ops = true -> wgood (exec_from s ops) /\ pgood (exec_from s ops)).
 Proof.
   revert s. induction ops as [|o ops IH]; intros s U; cbn [exec_from fold_left forallb]; auto.
   destruct (step_good s o U) as [U' W']. destruct (IH _ U') as [U2 W2]. split; auto.
-  intros W H. apply andb_prop in H as [Ho H]. apply W2; auto.
+  intros W P H. apply andb_prop in H as [Ho H]. apply W2; auto. now apply step_pgood.
 Qed.
 
 (* every reachable state has its ledgers in good order, provided the environment only ever
@@ -25,7 +26,13 @@ Qed.
 Lemma reachable_lgood ops t : forallb op_wf ops = true -> lgood (ledger_of (ledgers (exec ops)) t).
 Proof.
   intros H. destruct (exec_from_good init_state ops init_ugood) as [U W].
-  apply (good_lgood _ t U (W init_wgood H)).
+  apply (good_lgood _ t U (proj1 (W init_wgood init_pgood H))).
+Qed.
+Lemma reachable_good ops : forallb op_wf ops = true ->
+  ugood (exec ops) /\ wgood (exec ops) /\ pgood (exec ops).
+Proof.
+  intros H. destruct (exec_from_good init_state ops init_ugood) as [U W].
+  destruct (W init_wgood init_pgood H). auto.
 Qed.
 
 Lemma free_eq_all ops t : forallb op_wf ops = true -> free_eq (ledger_of (ledgers (exec ops)) t).
@@ -42,19 +49,23 @@ Fixpoint env_ok_from (s : state) (ops : list op) : Prop :=
   | o :: rest => (is_env_op o = true -> inv_okb (ledgers (fst (step s o))) = true)
                  /\ match o with
                     | OSchedule _ rq => sched_ok (nkind s) (ledgers s) rq = true
+                    | OReserve p => match open_of s p with
+                                    | Some c => sched_ok (nkind s) (ledgers s) (fst c) = true
+                                    | None => True end
                     | _ => True end
                  /\ env_ok_from (fst (step s o)) rest
   end.
 Lemma no_overcommit_from s ops :
-  ugood s -> wgood s -> inv_ok (ledgers s) -> forallb op_wf ops = true -> env_ok_from s ops ->
+  ugood s -> wgood s -> pgood s -> inv_ok (ledgers s) -> forallb op_wf ops = true -> env_ok_from s ops ->
   inv_ok (ledgers (exec_from s ops)).
 Proof.
-  revert s. induction ops as [|o ops IH]; intros s U W I H E; cbn [exec_from fold_left]; auto.
+  revert s. induction ops as [|o ops IH]; intros s U W P I H E; cbn [exec_from fold_left]; auto.
   cbn [forallb] in H. apply andb_prop in H as [Ho H]. destruct E as [E1 [Es E2]].
   destruct (step_good s o U) as [U' W']. apply IH; auto.
-  destruct (is_env_op o) eqn:Eo.
-  - apply inv_okb_spec. now apply E1.
-  - now apply step_inv.
+  - now apply step_pgood.
+  - destruct (is_env_op o) eqn:Eo.
+    + apply inv_okb_spec. now apply E1.
+    + now apply step_inv.
 Qed.
 Lemma no_overcommit_all ops t :
   forallb op_wf ops = true -> env_ok_from init_state ops -> (t < 3)%nat ->
@@ -62,22 +73,130 @@ Lemma no_overcommit_all ops t :
 Proof.
   intros H E Ht.
   assert (I : inv_ok (ledgers (exec ops))).
-  { apply no_overcommit_from; auto; [apply init_ugood|apply init_wgood|]. apply inv_okb_spec. reflexivity. }
+  { apply no_overcommit_from; auto; [apply init_ugood|apply init_wgood|apply init_pgood|].
+    apply inv_okb_spec. reflexivity. }
   now apply I.
 Qed.
 
 (* the allocator, on any reachable state *)
 Lemma alloc_sound_all ops rq da t :
-  forallb op_wf ops = true -> (t < 3)%nat ->
+  forallb op_wf ops = true -> (t < 3)%nat -> (most_of (nkind (exec ops)) = true -> raw_nonneg rq = true) ->
   sched_ok (nkind (exec ops)) (ledgers (exec ops)) rq = true ->
   allocate (nkind (exec ops)) (ledgers (exec ops)) (infos (exec ops)) rq = ADone da ->
   alloc_sound_t (ledgers (exec ops)) (infos (exec ops)) t rq (allocs_of da t) = true.
 Proof.
-  intros H Ht So A. apply (type_done_sound (nkind (exec ops))); [now apply reachable_lgood|auto|].
+  intros H Ht NNm So A. apply (type_done_sound (nkind (exec ops))); [auto|].
   eapply allocate_done; eauto. intros t'. now apply reachable_lgood.
 Qed.
+
+(* a pod with a designated allocation, on any reachable state: granted devices are designated ones,
+   the request fits what the designation leaves of them and their real free amounts *)
+Lemma desig_sound_all ops gk rq dg da t :
+  forallb op_wf ops = true -> (t < 3)%nat -> dallocs_wf dg = true -> (most_of (nkind (exec ops)) = true -> raw_nonneg rq = true) ->
+  sched_ok (nkind (exec ops)) (ledgers (exec ops)) rq = true ->
+  allocate_d (nkind (exec ops)) gk (ledgers (exec ops)) (infos (exec ops)) rq dg = ADone da ->
+  exists dg', desig_fill gk (total (ledger_of (ledgers (exec ops)) 0)) dg = Some dg' /\
+    alloc_sound_t (ledgers (exec ops)) (infos (exec ops)) t rq (allocs_of da t) = true /\
+    desig_sound_t (ledgers (exec ops)) (infos (exec ops)) dg' t rq (allocs_of da t) = true.
+Proof.
+  intros H Ht Wd NNm So A.
+  assert (G : forall t', lgood (ledger_of (ledgers (exec ops)) t')) by (intros t'; now apply reachable_lgood).
+  destruct (allocate_d_done _ _ _ _ _ _ _ G Wd NNm A) as [dg' [F [_ D]]]. exists dg'. split; auto.
+  destruct (D t Ht) as [D1 D2]. split.
+  - now apply (type_done_sound (nkind (exec ops))).
+  - now apply (type_done_d_sound (nkind (exec ops))).
+Qed.
+Lemma desig_complete_all ops gk rq dg code :
+  forallb op_wf ops = true -> dallocs_wf dg = true -> (most_of (nkind (exec ops)) = true -> raw_nonneg rq = true) ->
+  allocate_d (nkind (exec ops)) gk (ledgers (exec ops)) (infos (exec ops)) rq dg = AFail code ->
+  (code = c_unresolvable /\
+   (existsb (fun t => is_invalid (treq_of rq t)) type_ids
+    || existsb (fun t => no_device_t (ledgers (exec ops)) t rq) type_ids
+    || part_unsupported (nkind (exec ops)) (treq_of rq 0)) = true)
+  \/ (code = c_error /\ desig_fill gk (total (ledger_of (ledgers (exec ops)) 0)) dg = None)
+  \/ (code = c_unsched /\ exists dg', desig_fill gk (total (ledger_of (ledgers (exec ops)) 0)) dg = Some dg' /\
+        existsb (fun t => desig_short_t (nkind (exec ops)) (ledgers (exec ops)) (infos (exec ops)) dg' t rq) type_ids = true).
+Proof.
+  intros H Wd NNm A.
+  assert (G : forall t', lgood (ledger_of (ledgers (exec ops)) t')) by (intros t'; now apply reachable_lgood).
+  destruct (allocate_d_fail _ _ _ _ _ _ _ G Wd NNm A) as [X|[[X1 [X2 _]]|X]]; auto.
+Qed.
+
+(* Reserve re-validates: whatever happened between the Filter and the Reserve of a cycle, a
+   successful Reserve grants devices on which the request fits the free amounts of the moment of
+   Reserve (and, for a designated pod, what the designation leaves of them) *)
+Lemma reserve_sound_all ops p c da t :
+  forallb op_wf ops = true -> (t < 3)%nat ->
+  open_of (exec ops) p = Some c ->
+  sched_ok (nkind (exec ops)) (ledgers (exec ops)) (fst c) = true ->
+  snd (step (exec ops) (OReserve p)) = mkOut c_ok da ->
+  alloc_sound_t (ledgers (exec ops)) (infos (exec ops)) t (fst c) (allocs_of da t) = true /\
+  match snd c with
+  | Some dg => exists dg', desig_fill (gkey (exec ops)) (total (ledger_of (ledgers (exec ops)) 0)) dg = Some dg' /\
+                 desig_sound_t (ledgers (exec ops)) (infos (exec ops)) dg' t (fst c) (allocs_of da t) = true
+  | None => True
+  end.
+Proof.
+  intros H Ht Op So St. destruct (reachable_good ops H) as [U [W P]].
+  assert (G : forall t', lgood (ledger_of (ledgers (exec ops)) t')) by (intros t'; now apply reachable_lgood).
+  unfold open_of in Op. cbn [step] in St.
+  destruct (lookup p (envrec (exec ops))) as [x|]; [discriminate|]. rewrite Op in St.
+  destruct (P p c Op) as [NN Wd].
+  destruct (cycle_allocate (exec ops) c) as [|code|da'] eqn:A; cbn [snd] in St; try discriminate.
+  - unfold cycle_allocate in A. exfalso.
+    assert (Hc : code = c_unresolvable \/ (code = c_unsched \/ code = c_error)).
+    { destruct (snd c); [eapply allocate_d_fail_codes|eapply allocate_fail_codes]; eauto. }
+    injection St as E. destruct Hc as [-> | [-> | ->]]; discriminate.
+  - injection St as <-. unfold cycle_allocate in A. destruct (snd c) as [dg|].
+    + destruct (allocate_d_done _ _ _ _ _ _ _ G Wd (fun _ => NN) A) as [dg' [F [_ D]]]. destruct (D t Ht) as [D1 D2]. split.
+      * now apply (type_done_sound (nkind (exec ops))).
+      * exists dg'. split; auto. now apply (type_done_d_sound (nkind (exec ops))).
+    + split; auto. apply (type_done_sound (nkind (exec ops))); auto. eapply allocate_done; eauto.
+Qed.
+(* what desig_sound_t says, as a Prop *)
+Lemma desig_sound_t_spec ls infos dg t rq al per count sh :
+  treq_of rq t = TReq per count sh -> desig_sound_t ls infos dg t rq al = true ->
+  length al = desired_count count /\ NoDup (map fst al) /\
+  forall a, In a al ->
+    In (fst a) (minors_of infos t) /\
+    (is_nil (allocs_of dg t) = false -> In (fst a) (map fst (allocs_of dg t))) /\
+    (forall k T v, rget (ores (dget (total (avail_of ls dg t)) (fst a))) k = Some T ->
+                   rget per k = Some v -> v <= dval (free (avail_of ls dg t)) (fst a) k).
+Proof.
+  intros E H. unfold desig_sound_t in H. rewrite E in H. rewrite !andb_true_iff in H.
+  destruct H as [[Len ND] Hall]. split; [now apply Nat.eqb_eq|]. split; [now apply nodupn_NoDup|].
+  intros a Ha. rewrite forallb_forall in Hall. specialize (Hall a Ha).
+  rewrite !andb_true_iff in Hall. destruct Hall as [[Hm Hf] Hg]. split; [now apply memn_In|].
+  destruct (dget (free (avail_of ls dg t)) (fst a)) as [f|] eqn:Ef; [|discriminate]. split.
+  - intros Hn. unfold avail_of, desig_avail, required_of in Ef.
+    assert (Hne : dis_empty (resources_of (allocs_of dg t)) = false \/ dis_empty (resources_of (allocs_of dg t)) = true)
+      by (destruct (dis_empty _); auto).
+    destruct (in_dec Nat.eq_dec (fst a) (map fst (allocs_of dg t))) as [Hin|Hnot]; auto. exfalso.
+    assert (Er : dget (resources_of (allocs_of dg t)) (fst a) = None).
+    { unfold resources_of. rewrite dget_fold_dset_notin by auto. apply dget_nil. }
+    destruct (dis_empty (resources_of (allocs_of dg t))) eqn:De.
+    + (* a non-empty annotation records at least one device *)
+      destruct (allocs_of dg t) as [|a0 al0] eqn:Ea; [discriminate|].
+      rewrite dis_empty_spec in De.
+      assert (X : forall (l : list alloc) d, (exists m, dget d m <> None) ->
+                   exists m, dget (fold_left (fun d a => dset d (fst a) (Some (snd a))) l d) m <> None).
+      { induction l as [|b l IH]; intros d Hd; auto. cbn [fold_left]. apply IH.
+        destruct Hd as [m Hdm]. destruct (Nat.eq_dec (fst b) m) as [->|Hne'].
+        - exists m. rewrite dget_dset_same. discriminate.
+        - exists m. now rewrite dget_dset_other. }
+      destruct (X al0 (dset [] (fst a0) (Some (snd a0)))) as [m Hdm].
+      { exists (fst a0). rewrite dget_dset_same. discriminate. }
+      apply Hdm. unfold resources_of in De. cbn [fold_left] in De. apply De.
+    + cbn [free] in Ef. unfold dget in Ef. rewrite Proofs_Desig.nth_map_seq' in Ef.
+      destruct (Nat.ltb (fst a) (length (free (ledger_of ls t)))); [|discriminate].
+      unfold avail_at in Ef. rewrite Er in Ef. destruct (dget (free (ledger_of ls t)) (fst a)); discriminate.
+  - intros k T v ET Ev. unfold fits_exposed in Hf. rewrite forallb_forall in Hf.
+    destruct (Nat.lt_ge_cases k 3) as [Lk|Lk].
+    + specialize (Hf k (slots_all k Lk)). rewrite ET, Ev in Hf. now apply Z.leb_le.
+    + rewrite rget_big in Ev by auto. discriminate.
+Qed.
 Lemma alloc_complete_all ops rq code :
-  forallb op_wf ops = true ->
+  forallb op_wf ops = true -> (most_of (nkind (exec ops)) = true -> raw_nonneg rq = true) ->
   allocate (nkind (exec ops)) (ledgers (exec ops)) (infos (exec ops)) rq = AFail code ->
   (code = c_unresolvable /\
    (existsb (fun t => is_invalid (treq_of rq t)) type_ids
@@ -86,19 +205,19 @@ Lemma alloc_complete_all ops rq code :
   \/ (code = c_unsched /\
       existsb (fun t => alloc_short_t (nkind (exec ops)) (ledgers (exec ops)) (infos (exec ops)) t rq) type_ids = true).
 Proof.
-  intros H A. eapply allocate_fail; eauto. intros t. now apply reachable_lgood.
+  intros H NNm A. eapply allocate_fail; eauto. intros t. now apply reachable_lgood.
 Qed.
 
 (* the preemption dry-run, on any reachable state *)
 Lemma preempt_sound_all ops rq t per count sh victims al :
-  forallb op_wf ops = true -> treq_of rq t = TReq per count sh ->
+  forallb op_wf ops = true -> treq_of rq t = TReq per count sh -> (most_of (nkind (exec ops)) = true -> raw_nonneg rq = true) ->
   sched_ok (nkind (exec ops)) (ledgers (exec ops)) rq = true ->
   alloc_type_on (nkind (exec ops)) (ledgers (exec ops)) (infos (exec ops)) t per count sh victims = Some al ->
   (desired_count count <=
    maybe_count (preempt_ledger (ledger_of (ledgers (exec ops)) t) victims)
                (minors_of (infos (exec ops)) t) per)%nat.
 Proof.
-  intros H E So A. pose proof (sched_ok_pfit _ _ _ _ _ _ _ So E) as Pf. apply treq_spec in E as [Hc _].
+  intros H E NNm So A. pose proof (sched_ok_pfit _ _ _ _ _ _ _ So E) as Pf. apply treq_spec in E as [Hc [Hp _]].
   eapply alloc_type_on_sound; eauto. now apply reachable_lgood.
 Qed.
 Lemma preempt_complete_all ops rq t per count sh victims :
@@ -263,3 +382,43 @@ Lemma unexposed_granted :
   allocate 0 (ledgers (exec unexposed_ops)) (infos (exec unexposed_ops)) (req_koord 50)
   = ADone [[(0%nat, mkRes (Some 50) (Some 50) (Some 8000))]; []; []].
 Proof. vm_compute. reflexivity. Qed.
+
+(* what a designation leaves of a device never exceeds its free amount (nor its total) *)
+Lemma avail_within_free_all ops t rq m a f k T :
+  forallb op_wf ops = true -> dnonneg rq ->
+  let l := ledger_of (ledgers (exec ops)) t in
+  avail_at l rq m = Some a -> dget (free l) m = Some f ->
+  rget (ores (dget (total l) m)) k = Some T ->
+  exists v, rget a k = Some v /\ 0 <= v <= T /\ v <= rval f k.
+Proof.
+  intros H Hr l Ea Ef ET. pose proof (reachable_lgood ops t H) as G. fold l in G.
+  exact (avail_exposed l rq (lg_fs _ G) (lg_tot _ G) (lgood_used_nonneg _ G) Hr m a f k T Ea Ef ET).
+Qed.
+
+(* cycles: a designated whole GPU passes Filter, then somebody else's pod takes that GPU; the same
+   cycle's next Filter and its Reserve are refused; a second cycle designating the other GPU is
+   reserved on it although GPU 0 would score the same *)
+Definition whole_gpu (m : nat) : nat * alloc := (0%nat, (m, mkRes (Some 100) (Some 100) None)).
+Definition cycle_ops : list op :=
+  [ORefresh [gpu_dev 0; gpu_dev 1];
+   OFilter 0 (req_koord 100) true [whole_gpu 0];
+   OForeignAdd 9 [(0%nat, (0%nat, mkRes (Some 100) (Some 100) (Some 16000)))];
+   OFilterAgain 0;
+   OFilter 1 (req_koord 100) true [whole_gpu 0];
+   OFilter 2 (req_koord 100) true [whole_gpu 1];
+   OReserve 2;
+   OFilter 3 (req_koord 50) false [whole_gpu 0];
+   OReserve 3].
+Lemma cycle_demo :
+  forallb op_wf cycle_ops = true /\
+  map (fun ob => (o_code (fst ob), map fst (allocs_of (o_allocs (fst ob)) 0))) (run cycle_ops)
+  = [(0, []); (0, []); (0, []); (1, []); (1, []); (0, []); (0, [1%nat]); (1, []); (-1, [])].
+Proof. vm_compute. split; reflexivity. Qed.
+
+Lemma slot_score_generated most req tot fr k :
+  rval tot k <> 0 ->
+  slot_score most req tot fr k =
+  let rq := if rval fr k <=? rval tot k then rval tot k - rval fr k + rval req k else rval tot k in
+  Some (if most then deviceshare_mostRequestedScore rq (rval tot k)
+        else deviceshare_leastRequestedScore rq (rval tot k)).
+Proof. intros H. unfold slot_score. apply Z.eqb_neq in H. now rewrite H. Qed.
